@@ -23,6 +23,9 @@ def plan(tier, seed):
         shards.append({'name': 'small-%d' % i, 'fn': 'shard_small', 'args': {'part': i}})
     shards.append({'name': 'boundary-strings', 'fn': 'shard_boundary', 'args': {'kind': 'str', 'upto': 1 << 19}})
     shards.append({'name': 'boundary-hashes', 'fn': 'shard_boundary', 'args': {'kind': 'hex', 'upto': (1 << 18) + 4000}})
+    shards.append({'name': 'boundary-digits8', 'fn': 'shard_boundary', 'args': {'kind': 'digits8', 'upto': 300000}})
+    shards.append({'name': 'boundary-bytes', 'fn': 'shard_boundary', 'args': {'kind': 'bytes', 'upto': (1 << 18) + 30000}})
+    shards.append({'name': 'digest-collisions', 'fn': 'shard_collisions', 'args': {}})
     shards.append({'name': 'boundary-dup-trigger', 'fn': 'shard_dup_trigger', 'args': {}})
     shards.append({'name': 'pipeline', 'fn': 'shard_pipeline', 'args': {}})
     if tier == 'thorough':
@@ -72,6 +75,11 @@ def _cls():
 def value(kind, i, salt=0):
     if kind == 'str':
         return 'v%d_%d' % (salt, i)
+    if kind == 'digits8':            # structured strings that merely LOOK like 32-bit hex digests
+        return '%08d' % (i + salt * 1000003)
+    if kind == 'bytes':              # non-str values are hashed through bytes(value)
+        import hashlib
+        return hashlib.blake2b(('%d:%d' % (salt, i)).encode(), digest_size=8).digest()
     import xxhash
     return xxhash.xxh32(('%d:%d' % (salt, i)).encode(), seed=20141025).hexdigest()
 
@@ -81,7 +89,7 @@ def shard_small(sh, part):
     rng, nprng = sh.rng('small', part), sh.nprng('small', part)
     reps = 60 if sh.tier == 'quick' else 200
     for t in range(reps):
-        kind = rng.choice(['str', 'hex', 'mixed-types'])
+        kind = rng.choice(['str', 'hex', 'mixed-types', 'digits8', 'bytes'])
         n = rng.choice([0, 1, 2, 5, 30, 200, 1000, 5000])
         order = rng.choice(['increasing', 'shuffled', 'zipf', 'each-twice', 'blocks-replayed'])
         ids = list(range(n))
@@ -201,3 +209,16 @@ def shard_pipeline(sh):
                      lambda: {'column': c, 'batch': b, 'len': len(cr.GLOBAL_CARDINALITY_STORAGE[c]), 'distinct': len(seen[c])})
         sh.case(('pipeline', b, n), b > 0, 'pipeline', sample={'batch': b, 'rows': n, 'cardinalities': {c: len(cr.GLOBAL_CARDINALITY_STORAGE[c]) for c in df.columns}} if b == 2 else None)
     sh.notes['sketches_created_by_pipeline'] = len(created)
+
+
+def shard_collisions(sh):
+    """Distinct strings whose 32-bit digests coincide (under the sketch's own hash seed and under the pipeline's): exact while warm means
+    both are counted."""
+    H = _cls()
+    for seed in (19, 20141025):
+        pairs = gen.xxh32_colliding_pairs(seed, want=3, prefix='user_')
+        for (a, b) in pairs:
+            m = Monitored(sh, H(0.02), 'colliding-digests(seed %d)' % seed)
+            for v in ('x', a, 'y', b, a, b, 'z'):
+                m.add(v, check=True)
+            sh.case(('collision', seed, a, b), True, 'digest-collision', sample={'values_with_equal_32bit_digest': [a, b], 'hash_seed': seed, 'len': len(m.s), 'distinct': len(m.shadow)})
